@@ -270,6 +270,7 @@ type pathCtx struct {
 	nextGid  int
 	held     map[*value]int
 	wrote    map[interface{}]raceRec
+	readBy   map[interface{}][]raceRec
 }
 
 type raceRec struct {
